@@ -27,6 +27,7 @@ use vcore::{CaseCfg, Ctx, Draw, Outcome, hash_str, json};
 
 /// signatures of the hash-order findings that non-strict cases exclude
 const EXCLUDED_UNLESS_STRICT: &[&str] = &[
+    "relock-switches-to-other-locked-release",
     "nondeterministic-lock-names",
     "nondeterministic-dependencies-order",
     "nondeterministic-lockfile-text",
@@ -107,8 +108,13 @@ impl<'a> Eval<'a> {
             let kind = err.get("kind").and_then(|k| k.as_str()).unwrap_or("?").to_string();
             let stage = err.get("stage").and_then(|k| k.as_str()).unwrap_or("?").to_string();
             let text = err.get("text").and_then(|k| k.as_str()).unwrap_or("").to_string();
-            let (kinds, _some_ok, complete) = self.world.possible_errors(&t0, force);
-            if unchanged {
+            let (kinds, _some_ok, complete, had_choice) = self.world.possible_errors(&t0, force);
+            if unchanged && had_choice && kind == "InvalidDependency" {
+                self.fail(
+                    "relock-switches-to-other-locked-release",
+                    format!("run {tag} (update={force}): nothing was edited since the lock file was written, yet resolution now fails: {text}; lock table: {}", model::show_table(&t0)),
+                );
+            } else if unchanged {
                 self.fail(
                     &format!("error-although-declarations-unchanged:{kind}"),
                     format!("run {tag} (update={force}): nothing was edited since the lock file was written, yet resolution fails at {stage}: {text}"),
@@ -141,7 +147,9 @@ impl<'a> Eval<'a> {
         };
         // 1. every pick obeys the property, names distinct, table = closure
         let mut shape = Shape::default();
-        match self.world.validate(&t0, &t1, force, &mut shape) {
+        let verdict = self.world.validate(&t0, &t1, force, &mut shape);
+        let ambiguous = shape.ambiguous;
+        match verdict {
             Ok(()) => {
                 self.classes.extend(shape.classes);
                 self.diamond |= shape.diamond;
@@ -185,7 +193,7 @@ impl<'a> Eval<'a> {
             }
             if unchanged && m {
                 self.fail(
-                    "modified-although-declarations-unchanged",
+                    if ambiguous { "relock-switches-to-other-locked-release" } else { "modified-although-declarations-unchanged" },
                     format!(
                         "run {tag} (update={force}): no declaration was edited since the lock file was written{}, yet update() reports a modification: before {} after {}",
                         if force { " and nothing was published" } else { "" },
@@ -503,11 +511,12 @@ fn case(d: &mut Draw, thorough: bool, known: &[String]) -> Outcome {
 
 pub fn run(ctx: &Ctx) {
     let thorough = !ctx.is_quick();
-    let n = ctx.scale(80, 3000);
+    // C31_CASES: development override of the fixed case count
+    let n = std::env::var("C31_CASES").ok().and_then(|s| s.parse().ok()).unwrap_or(ctx.scale(80, 3000));
     let known: Vec<String> = ctx.findings().iter().filter(|f| f.status == "known").map(|f| f.key.clone()).collect();
     ctx.run(
         "universe",
-        CaseCfg::cases(n).choices(1500).timeout_s(3000).shrink_iters(40),
+        CaseCfg::cases(n).choices(900).timeout_s(3000).shrink_iters(40),
         |d: &mut Draw| case(d, thorough, &known),
     );
     ctx.assume("requirement matching and version order are those of the `semver` crate (the reference resolver uses the same crate to decide `satisfies` and `highest`)");
